@@ -75,6 +75,11 @@ func NewCollection(idIndex bool) *Collection {
 
 // Find will look up the documents that match the specified query.
 func (c *Collection) Find(query, sort bsonkit.Doc, skip, limit int) (*Result, error) {
+	// check skip
+	if skip < 0 {
+		return nil, fmt.Errorf("skip must not be negative")
+	}
+
 	// get documents
 	list := c.Documents.List
 
